@@ -14,7 +14,7 @@ RULE = (
     "seeded ordered field lists (1-4 fields over the context dimension alphabet: optional fields, multi-axis, expressions, mixed plain "
     "fields; values arrays of the declared library or None for optional fields; 0-1 perturbations; in a third of the lists two fields share one annotation object through a type alias, one of them `| None`) generated once and presented in all four "
     "forms (dltyped function, dltyped dataclass, dltyped NamedTuple, pydantic model), positionally and by keyword in declaration and reversed "
-    "order; the four verdicts and reports must be equal to each other (and to the model's). non-trivial = distinct field list with >=2 "
+    "order, the dataclass also with its first fields on a (plain or decorated) base class; the four verdicts and reports must be equal to each other (and to the model's). non-trivial = distinct field list with >=2 "
     "annotated fields"
 )
 
@@ -45,7 +45,7 @@ def cases(tier, rng, run):
                 if s_.optional and rng.random() < 0.6:
                     s_.value = ("N",)
             alias = "\tAL"
-        for kind, style in (("func", rng.choice(["pos", "kw"])), ("nt", rng.choice(["pos", "kw", "kwrev"])), ("dc", rng.choice(["pos", "kw", "kwrev"])), ("pyd", rng.choice(["kw", "kwrev"]))):
+        for kind, style in (("func", rng.choice(["pos", "kw"])), ("nt", rng.choice(["pos", "kw", "kwrev"])), ("dc", rng.choice(["pos", "kw", "kwrev", "inherit", "inherit2"])), ("pyd", rng.choice(["kw", "kwrev"]))):
             out.append(Case(c.call_line(kind, style) + alias, kind, {"group": gi, "ctx": c}))
     gi = n
     for c in gen_ctx.rebinding_contexts(with_provider=False):
